@@ -469,33 +469,43 @@ def _gen_setalg(rng, tier):
 
 
 def _gen_large(rng, tier):
-    """more than 384 separate dead intervals while dead <= len/8: the len(ded) > 384 branch of _cull"""
-    n0 = rng.choice([3300, 3500])
+    """More than `limit` (384) separate dead intervals, so that _cull takes its `len(ded) > 384` branch on the
+    real code.  With the shipped _COMPACTION_FACTOR = 8 that needs > 3080 items (385 tombstones must stay below
+    1/8 of the slots), which unary-nat tokens make too slow for vm_compute; the history is therefore run with
+    the module constant set to 2 from outside (case["factor"]; the model gets the same factor through
+    c_factor, the theorems hold for every factor): ~800 items, every other one of the first 770+ removed."""
+    n0 = rng.choice([800, 820, 860])
     ref = Ref()
     ops = [["update", [["list", list(range(n0))]], "ctor"]]
     ref.apply(ops[0])
-    pos = list(range(1, n0 - 8, 8))[:rng.choice([386, 390, 395])]
+    nrem = rng.choice([385, 386, 390])
+    pos = [1 + 2 * t for t in range(nrem)]              # separate slots: one interval each
     if rng.random() < 0.5:
-        rng.shuffle(pos)
-    vict = [ref.l[p] for p in pos]
-    for t, v in enumerate(vict):
-        ops.append(["remove", v])
+        head, tail_ = pos[:-5], pos[-5:]
+        rng.shuffle(head)
+        pos = head + tail_
+    for t, v in enumerate(pos):
+        ops.append([rng.choice(["remove", "remove", "discard"]), v])
         ref.apply(ops[-1])
-        if t % 60 == 59 or t >= 380:
+        if t % 64 == 63 or t >= nrem - 8:
             n = len(ref.l)
-            i = rng.randrange(n)
-            ops.append(["get", i])
+            ops.append(["get", rng.randrange(n)])
             ops.append(["index", ref.l[rng.randrange(n)]])
             ops.append(["get", -1 - rng.randrange(min(n, 9))])
+    n = len(ref.l)
     ops.append(["slice", 5, 60, 7])
     ops.append(["pop", 3])
     ref.apply(ops[-1])
+    ops.append(["add", n0 + 5])
+    ref.apply(ops[-1])
     ops.append(["get", len(ref.l) - 1])
-    return {"keymode": "int", "digests": False, "ops": ops, "stream": "large"}
+    ops.append(["index", n0 + 5])
+    ops.append(["snap"])
+    return {"keymode": "int", "digests": False, "factor": 2, "ops": ops, "stream": "large"}
 
 
 def generate(rng, tier, n):
-    n_large = 0      # the large stream is too costly for unary nat tokens; see notes/C11.md
+    n_large = 0 if n < 100 else (1 if tier == "quick" else 4)
     for i in range(n):
         if i < n_large:
             yield _gen_large(rng, tier)
@@ -685,6 +695,18 @@ def run_impl(case):
         IndexedSet = ListRef
     else:
         from boltons.setutils import IndexedSet
+    if case.get("factor") is not None and case.get("stream") != "specval":
+        import boltons.setutils as _su
+        saved = _su._COMPACTION_FACTOR          # AttributeError (renamed constant) = crash = fail closed
+        _su._COMPACTION_FACTOR = case["factor"]
+        try:
+            return _run_history(case, IndexedSet)
+        finally:
+            _su._COMPACTION_FACTOR = saved
+    return _run_history(case, IndexedSet)
+
+
+def _run_history(case, IndexedSet):
     T = Toks(case["keymode"])
     for t in range(0, 64):
         T.obj(t)
@@ -876,6 +898,10 @@ def run_impl(case):
         out.append(ob)
         # coverage statistics only (never part of a verdict; tolerate a refactoring that renames these)
         ded = getattr(s, "dead_indices", None)
+        comp_now = getattr(s, "_compactions", 0)
+        if stats.get("_prev_ded", 0) >= 384 and comp_now > stats["compactions"]:
+            stats["compaction_at_interval_limit"] = stats.get("compaction_at_interval_limit", 0) + 1
+        stats["_prev_ded"] = len(ded) if isinstance(ded, list) else 0
         if isinstance(ded, list):
             stats["max_dead_intervals"] = max(stats["max_dead_intervals"], len(ded))
             adj = sum(1 for a, b in zip(ded, ded[1:]) if a[1] == b[0])
@@ -900,6 +926,8 @@ EXN = {"KeyError": "KeyError", "IndexError": "IndexError", "ValueError": "ValueE
 
 
 def _toks(l):
+    if len(l) >= 32 and l == list(range(l[0], l[0] + len(l))):
+        return "(seq %s %s)" % (_n(l[0]), _n(len(l)))            # computed by Coq, not parsed as a literal
     return clist(_n(t) for t in l)
 
 
@@ -985,7 +1013,9 @@ def to_coq(case, obs):
         else:
             dg = "(Some (%s, %s))" % (cN(ob["dg"][0]), cN(ob["dg"][1]))
         steps.append("(%s, mkObs %s %s %s)" % (_op(op, ob["orders"]), _ret(ob["ret"]), _n(ob["len"]), dg))
-    return "mkCase %s %s" % (cbool(case["digests"]), clist(steps))
+    factor = case.get("factor")
+    return "mkCase %s %s %s" % (cbool(case["digests"]), "None" if factor is None else "(Some %s)" % _n(factor),
+                                clist(steps))
 
 
 # ---------------------------------------------------------------------------
@@ -1109,7 +1139,7 @@ def distribution(d, case, obs):
     dep["max_dead_intervals"] = max(dep["max_dead_intervals"], stt.get("max_dead_intervals", 0))
     if stt.get("adjacent_unmerged"):
         dep["histories_with_adjacent_unmerged_intervals"] += 1
-    if stt.get("max_dead_intervals", 0) > 384:
+    if stt.get("compaction_at_interval_limit"):
         dep["histories_over_384_intervals"] += 1
     dep["max_item_list"] = max(dep["max_item_list"], stt.get("max_items", 0))
     dep["max_len"] = max([dep["max_len"]] + [ob["len"] for ob in obs["steps"]])
